@@ -30,6 +30,7 @@ func (verifTimeoutErr) Timeout() bool   { return true }
 func (verifTimeoutErr) Temporary() bool { return true }
 
 var errVerifFault = errors.New("injected fault")
+var verifCtxCanceled, verifCtxDeadline = context.Canceled, context.DeadlineExceeded
 
 type verifRead struct {
 	n    int      // bytes "received" (content = data if non-nil, else left as is)
@@ -55,6 +56,9 @@ type verifPacketConn struct {
 	local           net.Addr
 	readsAfterClose int
 	noCopy          bool // keep only the slice header of writes (for symbolic lengths)
+	writeCalls      int
+	yieldOnDeadline bool
+	writeFailAt     int // the k-th write (1-based) fails
 	mu              sync.Mutex
 }
 
@@ -83,8 +87,12 @@ func (c *verifPacketConn) ReadFrom(p []byte) (int, net.Addr, error) {
 }
 
 func (c *verifPacketConn) WriteTo(p []byte, addr net.Addr) (int, error) {
-	if c.writeErr != nil {
-		return 0, c.writeErr
+	c.mu.Lock()
+	c.writeCalls++
+	failNow := c.writeFailAt > 0 && c.writeCalls == c.writeFailAt
+	c.mu.Unlock()
+	if c.writeErr != nil || failNow {
+		return 0, errVerifFault
 	}
 	cp := p
 	if !c.noCopy {
@@ -104,7 +112,12 @@ func (c *verifPacketConn) Writes() []verifWrite {
 	return append([]verifWrite{}, c.writes...)
 }
 
-func (c *verifPacketConn) Close() error { c.closed++; return nil }
+func (c *verifPacketConn) Close() error {
+	c.mu.Lock()
+	c.closed++
+	c.mu.Unlock()
+	return nil
+}
 func (c *verifPacketConn) LocalAddr() net.Addr {
 	if c.local != nil {
 		return c.local
@@ -114,8 +127,15 @@ func (c *verifPacketConn) LocalAddr() net.Addr {
 func (c *verifPacketConn) SetDeadline(t time.Time) error { return nil }
 func (c *verifPacketConn) SetReadDeadline(t time.Time) error {
 	c.mu.Lock()
+	if c.closed > 0 {
+		c.mu.Unlock()
+		return net.ErrClosed
+	}
 	c.deadlines = append(c.deadlines, t)
 	c.mu.Unlock()
+	if c.yieldOnDeadline && verifNative() {
+		time.Sleep(20 * time.Microsecond) // widen the window after the call for native replays
+	}
 	return nil
 }
 func (c *verifPacketConn) SetWriteDeadline(t time.Time) error { return nil }
@@ -171,28 +191,30 @@ type verifSRead struct {
 }
 
 type verifStreamConn struct {
-	name             string
-	reads            []verifSRead
-	readPos          int
-	off              int
-	endErr           error // after the script (default io.EOF)
-	written          []byte
-	writeCalls       int
-	writeErr         error
-	events           []string
-	deadlines        []time.Time
-	remote           net.Addr
-	local            net.Addr
-	closed           int
-	closedRead       int
-	closedWrite      int
-	bytesRead        int
-	readCalls        int
-	readsAfterEnd    int
-	writesAfterClose int
-	bulk             int            // after the script: this many more bytes arrive (content irrelevant)
-	onRead           func(call int) // optional hook run at the start of each Read
-	glog             *[]string      // optional cross-connection event log
+	name                string
+	reads               []verifSRead
+	readPos             int
+	off                 int
+	endErr              error // after the script (default io.EOF)
+	written             []byte
+	writeCalls          int
+	writeErr            error
+	events              []string
+	deadlines           []time.Time
+	remote              net.Addr
+	local               net.Addr
+	closed              int
+	closedRead          int
+	closedWrite         int
+	bytesRead           int
+	readCalls           int
+	readsAfterEnd       int
+	writesAfterClose    int
+	readsAfterCloseRead int
+	connDeadlines       []time.Time    // SetDeadline calls (read and write side together)
+	bulk                int            // after the script: this many more bytes arrive (content irrelevant)
+	onRead              func(call int) // optional hook run at the start of each Read
+	glog                *[]string      // optional cross-connection event log
 }
 
 func (c *verifStreamConn) ev(name string) {
@@ -209,6 +231,11 @@ func (c *verifStreamConn) Read(b []byte) (int, error) {
 	c.ev("Read")
 	if c.onRead != nil {
 		c.onRead(c.readCalls)
+	}
+	if c.closedRead > 0 {
+		// the read side was shut down: the kernel reports end of stream from now on
+		c.readsAfterCloseRead++
+		return 0, verifIOEOF
 	}
 	for c.readPos < len(c.reads) {
 		r := &c.reads[c.readPos]
@@ -275,6 +302,7 @@ func (c *verifStreamConn) LocalAddr() net.Addr {
 func (c *verifStreamConn) RemoteAddr() net.Addr { return c.remote }
 func (c *verifStreamConn) SetDeadline(t time.Time) error {
 	c.ev("SetDeadline")
+	c.connDeadlines = append(c.connDeadlines, t)
 	return nil
 }
 func (c *verifStreamConn) SetReadDeadline(t time.Time) error {
